@@ -90,7 +90,7 @@ def run(tier, seed):
     cov = {
         "evaluations": int(st.get("named_statements", 0)),
         "distinct_nontrivial": len(col.sets.get("templates", ())) + len(col.sets.get("first_use_orders", ())),
-        "rule": "one evaluation = one statement of one catalogue template (40 templates: literal text, {{ }} escapes next to, around and directly after "
+        "rule": "one evaluation = one statement of one catalogue template (41 templates: literal text, {{ }} escapes next to, around and directly after "
                 "placeholders, names with and without specs, 1..26 arguments, a template with a newline, LOGJ_ generated templates (1, 2, 5, 13, 17 and 26 variables), a named statement that cannot be formatted followed by ordinary ones, templates whose string values hold control bytes (also single bytes of the internal value separator), DEL, bytes >= 0x80, quotes and backslashes, judged against an independent \\xHH sanitiser; each carries its "
                 "positional form, name list and spec list from its own construction) with random values; the first round uses every template once in "
                 "an order shuffled per seed (the backend caches the parsed template per format string). Judged in the harness: message = "
